@@ -57,6 +57,10 @@ def parseOverride (s : String) : Option (List (Bytes × Nat)) :=
 def opTxn (op : String) (a : List String) (st : DrvState) : Option (DrvState × String) :=
   match op, a with
   | "clock.reset", [] => some ({ st with envs := [] }, "ok")
+  | "env.new", [id, native, hack, pad, ro, ovr, _sw] =>
+    -- "sw": the tomb sweeper is configured; the cut-off it implies is an argument of every
+    -- transaction op
+    opTxn "env.new" [id, native, hack, pad, ro, ovr] st
   | "env.new", [id, native, hack, pad, ro, ovr] => do
     let native ← boolArg native
     let hack ← boolArg hack
@@ -111,6 +115,39 @@ def opTxn (op : String) (a : List String) (st : DrvState) : Option (DrvState × 
     match loadOnce i.cfg i.env snap ls (← natArg now) (← natArg cutoff) with
     | .error _ => pure (st, "ok refused")
     | .ok r => pure (st.setEnv id { i with env := r.env }, "ok applied")
+  | "prop.c04.load", [id, snap, lastSynced, now, cutoff] => do
+    let i ← st.getEnv id
+    let snap ← parseSnap snap
+    let ls ← relTxn i lastSynced
+    let cutoff ← natArg cutoff
+    match loadOnce i.cfg i.env snap ls (← natArg now) cutoff with
+    | .error _ => pure (st, "ok refused")
+    | .ok r =>
+      let has (e : Env) (target k : Bytes) : Bool :=
+        match findDbi e.dbis target with
+        | some d => d.kvs.any fun p => p.1 == k
+        | none => false
+      let hasMarker (e : Env) (target k : Bytes) : Bool :=
+        match findDbi e.dbis target with
+        | some d => d.kvs.any fun p => p.1 == k && (match Header.parse p.2 with | .ok (h, _) => Header.isDeleted h.flags | _ => false)
+        | none => false
+      let res := snap.dbs.foldl (fun (acc : Nat × Nat × Option String) m =>
+        if isPrivate m.name || m.transform != [] then acc else
+        let target := if i.cfg.native then m.name else shadowName m.name
+        m.entries.foldl (fun (acc : Nat × Nat × Option String) e =>
+          let del := e.flags % 2 == 1 || (e.val.length == 0 && snap.fv < 2)
+          let once := ((snap.dbs.filter fun m2 => m2.name == m.name).foldl
+            (fun n m2 => n + (m2.entries.filter fun x => x.key == e.key).length) 0) == 1
+          if !del || !once || has i.env target e.key then acc else
+          let old := e.ts < 100000000000000000
+          if old && cutoff != 0 then
+            (if hasMarker r.env target e.key then (acc.1, acc.2.1, some "FAIL stale-deletion-marker-re-created") else (acc.1 + 1, acc.2.1, acc.2.2))
+          else if !has r.env target e.key then (acc.1, acc.2.1, some "FAIL deletion-marker-not-stored")
+          else (acc.1, acc.2.1 + 1, acc.2.2)) acc) (0, 0, none)
+      let st' := st.setEnv id { i with env := r.env }
+      match res.2.2 with
+      | some f => pure (st', f)
+      | none => pure (st', s!"ok refused={res.1} stored={res.2.1}")
   | "prop.c11.load", [id, snap, lastSynced, now, cutoff] => do
     let i ← st.getEnv id
     if i.cfg.native then none else
